@@ -3,6 +3,7 @@ pub mod report;
 pub mod hooks;
 pub mod world;
 pub mod worldjson;
+pub mod appgen;
 pub mod run;
 pub mod par;
 pub mod searchcase;
